@@ -97,7 +97,8 @@ extern "C" void vp_run(const VpCase* c, VpOutcome* o) {
     if (p && p >= rw && p < rw + 2 * g_page && p + n * esz > rw + 2 * g_page) cls(CL_TOUCHES_GUARD);
     if (nt) o->nontrivial = 1; else o->classes |= 1u << CL_ORDINARY;
     const bool write = (op == OP_WRITE_BYTES || op >= OP_WRITE_T1);
-    const unsigned before = arena_protections();
+    // the kernel's view of the page protections is read back (through /proc/self/maps, ~10 us) after every third Case; the expected state is constant
+    const bool check_prot = ((uint64_t)c->s[1] + off + lvl + op) % 3 == 0;
     switch (op) {
     case OP_READ_BYTES: case OP_WRITE_BYTES: untyped(write, lvl, p, n); break;
     case OP_READ_T1: case OP_WRITE_T1: typed<char>(write, lvl, p, n); break;
@@ -107,8 +108,10 @@ extern "C" void vp_run(const VpCase* c, VpOutcome* o) {
     }
     ++o->lanes_compared;
     for (size_t i = 0; i < 2 * g_page; ++i) if (rw[i] != sentinel(i)) { fail(o, -1, "memory_changed", "%s changed byte %zu of the arena", OPS[op].name, i); rw[i] = sentinel(i); return; }
-    const unsigned after = arena_protections();
-    if (before != after || after != 0x6u) fail(o, -1, "protection_changed", "%s: page protections %x -> %x (expected 6)", OPS[op].name, before, after);
+    if (check_prot) {
+        const unsigned after = arena_protections();
+        if (after != 0x6u) fail(o, -1, "protection_changed", "%s: readable-page bitmap of the arena is %x (expected 6)", OPS[op].name, after);
+    }
 }
 
 extern "C" void vp_enum(int tier, uint64_t seed, uint32_t shard, uint32_t nshards, void (*emit)(const VpCase*, void*), void* ctx) {
